@@ -610,3 +610,83 @@ package objects
 //@   sweep
 //@   mode nopanic=off
 //@   ensures ok ==> p.ask.allowPreemptOther && !old(p.ask.preemptionTriggered) && p.ask.requiredNode == ""
+
+// ================================================================ C03: accounting pairings (application <-> queue chain <-> user)
+
+//@ func (a *Allocation) allocate() (ok bool)
+//@   props C03 C04
+//@   mode nopanic=off
+//@   assigns a.allocated
+//@   ensures ok == !old(a.allocated) && a.allocated
+
+//@ func (a *Allocation) deallocate() (ok bool)
+//@   props C03 C04
+//@   mode nopanic=off
+//@   assigns a.allocated
+//@   ensures ok == old(a.allocated) && !a.allocated
+
+//@ func (sq *Queue) decPendingResource(delta *resources.Resource)
+//@   props C03
+//@   mode nopanic=off
+//@   assigns all Queue.pending
+//@   ensures[booked] forall q *Queue, t Key :: anc(sq, q) ==> rv(q.pending, t) == (has(delta, t) ? posv(clamp64(old(rv(q.pending, t)) - rv(delta, t))) : old(rv(q.pending, t)))
+//@   ensures[frame] forall q *Queue :: !anc(sq, q) ==> q.pending == old(q.pending)
+//@   ensures[args] unch(delta)
+
+// user/group usage is tracked in pkg/scheduler/ugm on resource objects of its own (arithmetic verified under C05);
+// here only the frame is assumed: no application, queue or node ledger is written
+//@ func (sa *Application) incUserResourceUsage(resource *resources.Resource)
+//@   props C03 C05
+//@   trusted "frame only: writes ugm tracker state, which shares no resource object with application/queue/node ledgers"
+//@   assigns nothing
+
+//@ func (sa *Application) decUserResourceUsage(resource *resources.Resource, removeApp bool)
+//@   props C03 C05
+//@   trusted "frame only: writes ugm tracker state, which shares no resource object with application/queue/node ledgers"
+//@   assigns nothing
+
+// an ask that becomes allocated leaves the pending totals of the application and of every queue on its path by exactly its size
+//@ func (sa *Application) allocateAsk(ask *Allocation) (delta *resources.Resource, err error)
+//@   props C03
+//@   mode nopanic=off
+//@   ensures[pending] err == nil ==> (forall t Key :: rv(sa.pending, t) == clamp64(old(rv(sa.pending, t)) - rv(ask.allocatedResource, t)))
+//@   ensures[queue] err == nil ==> (forall q *Queue, t Key :: anc(sa.queue, q) ==> rv(q.pending, t) == (has(ask.allocatedResource, t) ? posv(clamp64(old(rv(q.pending, t)) - rv(ask.allocatedResource, t))) : old(rv(q.pending, t))))
+//@   ensures[marked] err == nil ==> ask.allocated && !old(ask.allocated) && delta == ask.allocatedResource
+//@   ensures[refused] err != nil ==> old(ask.allocated) && ask.allocated && sa.pending == old(sa.pending) && (forall q *Queue :: q.pending == old(q.pending))
+
+//@ func (sa *Application) deallocateAsk(ask *Allocation) (delta *resources.Resource, err error)
+//@   props C03
+//@   mode nopanic=off
+//@   ensures[pending] err == nil ==> (forall t Key :: rv(sa.pending, t) == clamp64(old(rv(sa.pending, t)) + rv(ask.allocatedResource, t)))
+//@   ensures[queue] err == nil ==> (forall q *Queue, t Key :: anc(sa.queue, q) ==> rv(q.pending, t) == clamp64(old(rv(q.pending, t)) + rv(ask.allocatedResource, t)))
+//@   ensures[marked] err == nil ==> !ask.allocated && old(ask.allocated) && delta == ask.allocatedResource
+//@   ensures[refused] err != nil ==> !old(ask.allocated) && !ask.allocated && sa.pending == old(sa.pending) && (forall q *Queue :: q.pending == old(q.pending))
+
+// a bound allocation is booked into exactly one of the two application totals (placeholder or real) and the same
+// resource is charged to the user
+//@ func (sa *Application) addAllocationInternal(allocType AllocationResultType, alloc *Allocation)
+//@   props C03 C05
+//@   mode nopanic=off
+//@   ensures[placeholder] alloc.placeholder ==> (forall t Key :: rv(sa.allocatedPlaceholder, t) == clamp64(old(rv(sa.allocatedPlaceholder, t)) + rv(alloc.allocatedResource, t))) && sa.allocatedResource == old(sa.allocatedResource)
+//@   ensures[real] !alloc.placeholder ==> (forall t Key :: rv(sa.allocatedResource, t) == clamp64(old(rv(sa.allocatedResource, t)) + rv(alloc.allocatedResource, t))) && sa.allocatedPlaceholder == old(sa.allocatedPlaceholder)
+//@   ensures[listed] sa.allocations[alloc.allocationKey] == alloc
+//@   ensures[pending] sa.pending == old(sa.pending)
+//@   at[userph] call objects.Application.incUserResourceUsage#1: assert alloc.placeholder && arg1 == alloc.allocatedResource && arg0 == sa
+//@   at[userreal] call objects.Application.incUserResourceUsage#2: assert !alloc.placeholder && arg1 == alloc.allocatedResource && arg0 == sa
+
+// removing a bound allocation takes exactly its size out of the total it was booked into, un-lists it and credits the user
+//@ func (sa *Application) removeAllocationInternal(allocationKey string, releaseType si.TerminationType) (removed *Allocation)
+//@   props C03 C05 C06
+//@   mode nopanic=off
+//@   ensures[found] removed == old(sa.allocations[allocationKey])
+//@   ensures[placeholder] removed != nil && removed.placeholder ==> (forall t Key :: rv(sa.allocatedPlaceholder, t) == clamp64(old(rv(sa.allocatedPlaceholder, t)) - rv(removed.allocatedResource, t))) && sa.allocatedResource == old(sa.allocatedResource)
+//@   ensures[real] removed != nil && !removed.placeholder ==> (forall t Key :: rv(sa.allocatedResource, t) == clamp64(old(rv(sa.allocatedResource, t)) - rv(removed.allocatedResource, t))) && sa.allocatedPlaceholder == old(sa.allocatedPlaceholder)
+//@   ensures[unlisted] removed != nil ==> !(allocationKey in sa.allocations)
+//@   ensures[absent] removed == nil ==> sa.allocatedResource == old(sa.allocatedResource) && sa.allocatedPlaceholder == old(sa.allocatedPlaceholder)
+//@   at[userph] call objects.Application.decUserResourceUsage#1: assert alloc.placeholder && arg1 == alloc.allocatedResource && arg0 == sa
+//@   at[userreal] call objects.Application.decUserResourceUsage#2: assert !alloc.placeholder && arg1 == alloc.allocatedResource && arg0 == sa
+
+//@ func (sa *Application) trackCompletedResource(info *Allocation)
+//@   props C03
+//@   trusted "frame only: aggregates into the application's TrackedResource objects (used/placeholder/preempted resource-seconds), which share no resource object with the ledgers"
+//@   assigns nothing
